@@ -944,8 +944,8 @@ Qed.
 Definition m_recv1 (d amt : Z) (to_pool : bool) (m : money) : money :=
   mkM (add ((if to_pool then POOL else OTHER), d) amt (bank m)) (cpool m) (outst m) (comm m) (alloc m)
       (g_cred m) (g_pv m) (g_pc m) (g_dust m) (g_forf m) (add (0, d) amt (g_mint m)) (log m).
-Definition m_recv2 (c d amt : Z) (m : money) : money :=
-  let m1 := m_recv1 d amt true m in
+Definition m_recv2 (c db d amt : Z) (m : money) : money :=
+  let m1 := m_recv1 db amt true m in
   mkM (bank m1) (cpool m1) (outst m1) (comm m1) (add (c, d) (dec_of_int amt) (alloc m1))
       (add (c, d) (dec_of_int amt) (g_cred m1)) (g_pv m1) (g_pc m1) (g_dust m1) (g_forf m1) (g_mint m1) (log m1).
 
@@ -958,12 +958,12 @@ Definition credited_consumer (ch memo : Z) (ack_ok to_pool : bool) (f : conf) : 
     end
   else None.
 
-Lemma receive_cases : forall ch memo d amt ack_ok to_pool f m,
-  receive ch memo d amt ack_ok to_pool f m =
+Lemma receive_cases : forall ch memo db d amt ack_ok to_pool f m,
+  receive ch memo db d amt ack_ok to_pool f m =
   if negb ack_ok then m
   else match credited_consumer ch memo ack_ok to_pool f with
-       | Some c => m_recv2 c d amt m
-       | None => m_recv1 d amt to_pool m
+       | Some c => m_recv2 c db d amt m
+       | None => m_recv1 db amt to_pool m
        end.
 Proof.
   intros. unfold receive, credited_consumer. destruct ack_ok; cbn [negb andb]; [|reflexivity].
@@ -981,9 +981,9 @@ Proof.
   - intros d'. getadd. specialize (Hd d'). unfold POOL, DISTR, OTHER in *. destruct to_pool; cbn [Z.eqb Pos.eqb andb]; lia.
 Qed.
 
-Lemma recv2_mstep0 : forall c d amt m, mstep0 m (m_recv2 c d amt m).
+Lemma recv2_mstep0 : forall c db d amt m, mstep0 m (m_recv2 c db d amt m).
 Proof.
-  intros c d amt m. destruct (recv1_mstep0 d amt true m) as (A1 & B1 & C1 & D1 & E1 & F1).
+  intros c db d amt m. destruct (recv1_mstep0 db amt true m) as (A1 & B1 & C1 & D1 & E1 & F1).
   unfold mstep0, m_recv2, m_recv1; cbv zeta; mfields. split; [|split; [intros Hl; exact Hl | repeat split]].
   intros Hp. destruct (A1 Hp) as (Ha & Hb & Hd & Hl). unfold m_recv1 in *.
   unfold pinv, acct_ok, bank_ok, distr_ok, link_ok in *; mfields; cbn [bank cpool outst comm alloc g_cred g_pv g_pc g_dust g_forf g_mint log] in *.
@@ -991,19 +991,19 @@ Proof.
   intros c' d'. getadd. specialize (Ha c' d'). destruct ((c' =? c) && (d' =? d)); lia.
 Qed.
 
-Lemma receive_mstep0 : forall ch memo d amt ack_ok to_pool f m, mstep0 m (receive ch memo d amt ack_ok to_pool f m).
+Lemma receive_mstep0 : forall ch memo db d amt ack_ok to_pool f m, mstep0 m (receive ch memo db d amt ack_ok to_pool f m).
 Proof.
   intros. rewrite receive_cases. destruct (negb ack_ok).
   - unfold mstep0; split; [tauto|]. split; [tauto|]. repeat split.
   - destruct (credited_consumer ch memo ack_ok to_pool f); [apply recv2_mstep0 | apply recv1_mstep0].
 Qed.
 
-Lemma receive_ninv : forall ch memo d amt ack_ok to_pool f m, 0 <= amt -> ninv m -> ninv (receive ch memo d amt ack_ok to_pool f m).
+Lemma receive_ninv : forall ch memo db d amt ack_ok to_pool f m, 0 <= amt -> ninv m -> ninv (receive ch memo db d amt ack_ok to_pool f m).
 Proof.
-  intros ch memo d amt ack_ok to_pool f m Ha (Hn & Hp). rewrite receive_cases. destruct (negb ack_ok); [split; assumption|].
-  assert (H1 : forall tp, ninv (m_recv1 d amt tp m)).
+  intros ch memo db d amt ack_ok to_pool f m Ha (Hn & Hp). rewrite receive_cases. destruct (negb ack_ok); [split; assumption|].
+  assert (H1 : forall tp, ninv (m_recv1 db amt tp m)).
   { intros tp; unfold ninv, m_recv1, nonneg_ok, pool_ok in *; mfields. split; [exact Hn|].
-    intros d'. getadd. specialize (Hp d'). unfold POOL, OTHER in *. destruct tp; cbn [Z.eqb Pos.eqb andb]; [destruct (d' =? d)|]; lia. }
+    intros d'. getadd. specialize (Hp d'). unfold POOL, OTHER in *. destruct tp; cbn [Z.eqb Pos.eqb andb]; [destruct (d' =? db)|]; lia. }
   destruct (credited_consumer ch memo ack_ok to_pool f) as [c|]; [|apply H1].
   destruct (H1 true) as (Hn1 & Hp1). unfold ninv, m_recv2, nonneg_ok, pool_ok in *; cbv zeta; mfields. split; [|exact Hp1].
   intros c' d'. unfold m_recv1 in *; mfields. getadd. specialize (Hn1 c' d'). mfields. cbn [alloc g_pv g_pc g_dust g_forf] in Hn1. unfold dec_of_int.
@@ -1062,7 +1062,7 @@ Proof.
     try (apply Same; cbn [prov pm pf]; reflexivity).
   - destruct (fund_mstep0 d amt m) as (A & B & C & _). eapply Nil; eauto.
   - destruct (credit_mstep0 c d raw m) as (A & B & C & _). eapply Nil; eauto.
-  - destruct (receive_mstep0 ch0 memo d amt ack_ok to_pool f m) as (A & B & C & _). eapply Nil; eauto.
+  - destruct (receive_mstep0 ch0 memo (bank_denom f ch0 segs) (cred_denom f ch0 segs) amt ack_ok to_pool f m) as (A & B & C & _). eapply Nil; eauto.
   - destruct (begin_block_mstep env f m) as (A & _ & C & new & L & F).
     split; [intros (I1 & I2); split; cbn [prov pm]; auto|]. cbn [prov pm].
     exists new; split; [exact L|]. eapply Forall_impl; [|exact F]. intros e (J & Li). exists env; cbn [prov pf]; auto.
@@ -1071,7 +1071,7 @@ Proof.
   - destruct (nth_error ch (Z.to_nat k)) as [c|]; [|apply Same; reflexivity].
     destruct (c_inflight c) as [|[d a] q]; [apply Same; reflexivity|].
     destruct ack_ok; [|apply Same; reflexivity]. cbn [prov pm pf].
-    destruct (receive_mstep0 (c_chan c) (c_memo c) (pdenom c d) a true (c_to_pool c) f m) as (A & B & C & _). eapply Nil; eauto.
+    destruct (receive_mstep0 (c_chan c) (c_memo c) (bank_denom f (c_chan c) (wire c d)) (cred_denom f (c_chan c) (wire c d)) a true (c_to_pool c) f m) as (A & B & C & _). eapply Nil; eauto.
 Qed.
 
 Lemma step_sinv : forall s o, sinv s -> sinv (step s o).
@@ -1249,8 +1249,8 @@ Proof.
 Qed.
 
 (* 3. crediting *)
-Lemma credit_sender : forall ch memo d amt ack_ok to_pool f m,
-  let m' := receive ch memo d amt ack_ok to_pool f m in
+Lemma credit_sender : forall ch memo db d amt ack_ok to_pool f m,
+  let m' := receive ch memo db d amt ack_ok to_pool f m in
   (forall c' d', get (c', d') (alloc m') =
      get (c', d') (alloc m) +
      match credited_consumer ch memo ack_ok to_pool f with
@@ -1261,9 +1261,9 @@ Lemma credit_sender : forall ch memo d amt ack_ok to_pool f m,
   outst m' = outst m /\ comm m' = comm m /\ cpool m' = cpool m /\
   (ack_ok = false -> m' = m) /\
   (forall a d', get (a, d') (bank m') =
-     get (a, d') (bank m) + if ack_ok && (a =? (if to_pool then POOL else OTHER)) && (d' =? d) then amt else 0).
+     get (a, d') (bank m) + if ack_ok && (a =? (if to_pool then POOL else OTHER)) && (d' =? db) then amt else 0).
 Proof.
-  intros ch memo d amt ack_ok to_pool f m m'. unfold m'. rewrite receive_cases.
+  intros ch memo db d amt ack_ok to_pool f m m'. unfold m'. rewrite receive_cases.
   unfold credited_consumer. destruct ack_ok; cbn [negb andb].
   - destruct to_pool; cbn [andb].
     + destruct (match (if 0 <=? memo then Some memo else if memo =? -2 then None else identify ch f) with
@@ -1289,7 +1289,8 @@ Qed.
 
 Lemma relay_step : forall s k c d a q, nth_error (chains s) (Z.to_nat k) = Some c -> c_inflight c = (d, a) :: q ->
   step s (Relay k true) =
-  mkS (mkP (receive (c_chan c) (c_memo c) (pdenom c d) a true (c_to_pool c) (pf (prov s)) (pm (prov s))) (pf (prov s)))
+  mkS (mkP (receive (c_chan c) (c_memo c) (bank_denom (pf (prov s)) (c_chan c) (wire c d)) (cred_denom (pf (prov s)) (c_chan c) (wire c d))
+                    a true (c_to_pool c) (pf (prov s)) (pm (prov s))) (pf (prov s)))
       (upd_nth (Z.to_nat k) cdelivered (chains s)).
 Proof. intros s k c d a q E Q; cbn [step]. rewrite E, Q. reflexivity. Qed.
 
@@ -1397,8 +1398,8 @@ Proof.
   destruct Hs as ((_ & Hb & _) & _). destruct Hs' as ((_ & Hb' & _) & _).
   unfold tot. rewrite (Hb d), (Hb' d). clear Hb Hb' tot.
   destruct s as [[m f] ch]. cbn [prov pm pf chains].
-  assert (R : forall ch0 memo d0 amt (ack tp : bool),
-    get (0, d) (g_mint (receive ch0 memo d0 amt ack tp f m)) = get (0, d) (g_mint m) + (if d0 =? d then (if ack then amt else 0) else 0)).
+  assert (R : forall ch0 memo d0 dc amt (ack tp : bool),
+    get (0, d) (g_mint (receive ch0 memo d0 dc amt ack tp f m)) = get (0, d) (g_mint m) + (if d0 =? d then (if ack then amt else 0) else 0)).
   { intros. rewrite receive_cases. destruct ack; cbn [negb]; [|destruct (d0 =? d); lia].
     destruct (credited_consumer ch0 memo true tp f); unfold m_recv2, m_recv1; cbv zeta; cbn [g_mint]; getadd; cbn [Z.eqb andb];
       rewrite (Z.eqb_sym d d0); destruct (d0 =? d); lia. }
@@ -1411,7 +1412,7 @@ Proof.
   - unfold fund; cbn [g_mint]. getadd. cbn [Z.eqb andb]. rewrite (Z.eqb_sym d d0). destruct (d0 =? d); lia.
   - destruct (nth_error ch (Z.to_nat k)) as [c|]; cbn [prov pm fst snd]; [|destruct (0 =? d); lia].
     destruct (c_inflight c) as [|[d0 a] q]; cbn [prov pm fst snd]; [destruct (0 =? d); lia|].
-    destruct ack_ok; cbn [prov pm]; [rewrite R; reflexivity | destruct (pdenom c d0 =? d); lia].
+    destruct ack_ok; cbn [prov pm]; [rewrite R; reflexivity | destruct (bank_denom f (c_chan c) (wire c d0) =? d); lia].
 Qed.
 
 (* ================================================================== full statements of the property text, refuted *)
@@ -1427,7 +1428,7 @@ Definition lossless_full : Prop := forall s0 ops, initial s0 -> Forall wf_op ops
   let m := pm (prov (run_ops s0 ops)) in
   get (c, d) (g_cred m) = get (c, d) (alloc m) + get (c, d) (g_pv m) + get (c, d) (g_pc m).
 
-Definition w_conf : conf := mkF [] [] [0] [] 1 1 [mkI 0 true true true true] [(0, 0)] 0.
+Definition w_conf : conf := mkF [] [] [0] [] 1 1 [mkI 0 true true true true] [(0, 0)] 0 [].
 Definition w_init : state := mkS (mkP empty_money w_conf) [].
 Definition w_env (h : Z) (fail_fund : list Z) : benv :=
   mkB h 0 [(0, 100000000000000000); (1, 100000000000000000); (2, 100000000000000000)] false [] fail_fund [].
@@ -1516,7 +1517,7 @@ Qed.
 Lemma step_forf : forall s o, g_forf (pm (prov (step s o))) = g_forf (pm (prov s)).
 Proof.
   intros [[m f] ch] o. cbn [prov pm pf chains].
-  assert (R : forall ch0 memo d0 amt (ack tp : bool), g_forf (receive ch0 memo d0 amt ack tp f m) = g_forf m).
+  assert (R : forall ch0 memo d0 dc amt (ack tp : bool), g_forf (receive ch0 memo d0 dc amt ack tp f m) = g_forf m).
   { intros. rewrite receive_cases. destruct (negb ack); [reflexivity|].
     destruct (credited_consumer ch0 memo ack tp f); reflexivity. }
   destruct o; cbn [step pstep prov pm pf chains]; try reflexivity.
@@ -1575,9 +1576,126 @@ Lemma epoch_join : forall h old vp,
     match find (fun e => cv_id e =? fst vp) old with Some e => cv_join e | None => h end.
 Proof. intros h old vp; unfold epoch_val. destruct (find (fun e => cv_id e =? fst vp) old); repeat split; reflexivity. Qed.
 
+(* ================================================================== denominations *)
+Lemma parse_split : forall isc g l pa b, parse_hops isc g l = (pa, b) -> pa ++ b = l.
+Proof.
+  intros isc g l; remember (length l) as n eqn:Hn. revert l Hn.
+  induction n as [n IH] using lt_wf_ind. intros l Hn pa b H.
+  destruct l as [|p [|c r]]; cbn [parse_hops] in H; try (inversion H; reflexivity).
+  destruct (g && isc c); [|inversion H; reflexivity].
+  destruct (parse_hops isc g r) as [pa' b'] eqn:E. inversion H; subst pa b.
+  cbn [app]. f_equal. f_equal. eapply (IH (length r)); [subst n; cbn [length]; lia | reflexivity | exact E].
+Qed.
+
+Lemma parse_ext : forall isc1 isc2 g l, Forall (fun z => isc1 z = isc2 z) l -> parse_hops isc1 g l = parse_hops isc2 g l.
+Proof.
+  intros isc1 isc2 g l; remember (length l) as n eqn:Hn. revert l Hn.
+  induction n as [n IH] using lt_wf_ind. intros l Hn H.
+  destruct l as [|p [|c r]]; cbn [parse_hops]; try reflexivity.
+  inversion H as [|? ? _ H1]; subst. inversion H1 as [|? ? Hc Hr]; subst. rewrite Hc.
+  destruct (g && isc2 c); [|reflexivity].
+  rewrite (IH (length r)) with (l := r); [reflexivity | cbn [length]; lia | reflexivity | exact Hr].
+Qed.
+
+Lemma parse_flag : forall isc l pa b, parse_hops isc true l = (pa, b) -> b <> [] ->
+  parse_hops isc (2 <? Z.of_nat (length l)) l = (pa, b).
+Proof.
+  intros isc l pa b H Hb. destruct (2 <? Z.of_nat (length l)) eqn:E; [exact H|].
+  apply Z.ltb_ge in E. destruct l as [|p [|c [|x r]]]; cbn [parse_hops andb] in *; try exact H.
+  - destruct (isc c); [inversion H; subst; congruence | exact H].
+  - cbn [length] in E. lia.
+Qed.
+
+Lemma parse_cons2 : forall isc g p c r,
+  parse_hops isc g (p :: c :: r) =
+  if g && isc c then let '(pa, b) := parse_hops isc g r in (p :: c :: pa, b) else ([], p :: c :: r).
+Proof. reflexivity. Qed.
+
+Definition no_client_ids (l : list Z) : Prop := Forall (fun z => is_chan_or_client z = is_chan z) l.
+
+Lemma credit_denom_key : forall sp sc dp dc l,
+  is_chan sc = true -> is_chan dc = true -> l <> [] -> no_client_ids l ->
+  snd (denom_trace is_chan_or_client l) <> [] ->
+  provider_denom_key sp sc dp dc l = ics20_key sp sc dp dc l.
+Proof.
+  intros sp sc dp dc l Hsc Hdc Hne Hnc Hbase.
+  unfold ics20_key, provider_denom_key, denom_trace in *.
+  rewrite (parse_ext is_chan_or_client is_chan _ l Hnc) in *.
+  destruct (has_prefix sp sc l) eqn:Hp.
+  - destruct l as [|p [|c [|x r]]]; cbn [has_prefix] in Hp; try discriminate.
+    apply andb_true_iff in Hp; destruct Hp as [Hp1 Hp2]; apply Z.eqb_eq in Hp1, Hp2; subst p c.
+    assert (Eg : (2 <? Z.of_nat (length (sp :: sc :: x :: r))) = true) by (apply Z.ltb_lt; cbn [length]; lia).
+    rewrite Eg in *. rewrite parse_cons2 in *. rewrite Hsc in *. cbn [andb] in *. cbn [skipn].
+    destruct (parse_hops is_chan true (x :: r)) as [pa b] eqn:E. cbn [snd] in Hbase.
+    rewrite !Z.eqb_refl. cbn [andb skipn].
+    rewrite (parse_flag is_chan (x :: r) pa b E Hbase).
+    pose proof (parse_split _ _ _ _ _ E) as Hs.
+    destruct pa as [|h t]; [cbn [app] in Hs; subst b; reflexivity | rewrite Hs; reflexivity].
+  - destruct (parse_hops is_chan (2 <? Z.of_nat (length l)) l) as [tr b] eqn:E.
+    pose proof (parse_split _ _ _ _ _ E) as Hs.
+    assert (Hchk : (match tr with p :: c :: _ => (p =? sp) && (c =? sc) | _ => false end) = false).
+    { destruct l as [|p [|c [|x r]]].
+      - cbn [parse_hops] in E; inversion E; reflexivity.
+      - cbn [parse_hops] in E; inversion E; reflexivity.
+      - cbn in E. inversion E; reflexivity.
+      - cbn [has_prefix] in Hp.
+        assert (Eg : (2 <? Z.of_nat (length (p :: c :: x :: r))) = true) by (apply Z.ltb_lt; cbn [length]; lia).
+        rewrite Eg in E. rewrite parse_cons2 in E. cbn [andb] in E. destruct (is_chan c); [|inversion E; reflexivity].
+        destruct (parse_hops is_chan true (x :: r)) as [pa' b']. inversion E; subst tr b. exact Hp. }
+    rewrite Hchk.
+    assert (Eg : (2 <? Z.of_nat (length (dp :: dc :: l))) = true).
+    { apply Z.ltb_lt. destruct l; [congruence | cbn [length]; lia]. }
+    rewrite Eg. rewrite parse_cons2. rewrite Hdc. cbn [andb].
+    destruct (parse_hops is_chan true l) as [pa b'] eqn:E2. pose proof (parse_split _ _ _ _ _ E2) as Hs2.
+    cbn [app]. rewrite Hs, Hs2. reflexivity.
+Qed.
+
+(* the credited denom id is the id of the denom the ICS-20 application delivered *)
+Lemma credit_denom_is_bank_denom : forall f ch l,
+  l <> [] -> no_client_ids l -> snd (denom_trace is_chan_or_client l) <> [] -> 0 <= ch < 990 ->
+  cred_denom f ch l = bank_denom f ch l.
+Proof.
+  intros f ch l H1 H2 H3 Hch. unfold cred_denom, bank_denom. rewrite credit_denom_key; auto.
+  unfold is_chan, dst_chan. apply andb_true_iff; split; [apply Z.leb_le | apply Z.ltb_lt]; lia.
+Qed.
+
+(* without the no-client-id hypothesis the two differ: a voucher whose first remaining hop is a client id
+   (ibc-go v10 accepts "07-tendermint-N" as a channel identifier, x/ccv/types/denom_helpers.go does not) *)
+Lemma credit_denom_client_id_refuted :
+  provider_denom_key PORT SRC_CHAN PORT (dst_chan 0) [1; 1001; 1; 2003; 14] = [0; 1; 2003; 14] /\
+  ics20_key PORT SRC_CHAN PORT (dst_chan 0) [1; 1001; 1; 2003; 14] = [1; 1; 2003; 14].
+Proof. split; reflexivity. Qed.
+
+Definition credit_denom_full : Prop := forall sp sc dp dc l,
+  is_chan sc = true -> is_chan dc = true -> l <> [] -> snd (denom_trace is_chan_or_client l) <> [] ->
+  provider_denom_key sp sc dp dc l = ics20_key sp sc dp dc l.
+Lemma credit_denom_full_refuted : ~ credit_denom_full.
+Proof.
+  intros H. specialize (H PORT SRC_CHAN PORT (dst_chan 0) [1; 1001; 1; 2003; 14]).
+  destruct credit_denom_client_id_refuted as [E1 E2]. rewrite E1, E2 in H.
+  assert (X : [0; 1; 2003; 14] = [1; 1; 2003; 14]) by (apply H; [reflexivity | reflexivity | discriminate | vm_compute; discriminate]).
+  discriminate.
+Qed.
+
+(* consequence for a receive: the coins arrive in the pool under the very denom of the credit *)
+Lemma receive_credit_matches_pool : forall f m ch memo l amt c,
+  l <> [] -> no_client_ids l -> snd (denom_trace is_chan_or_client l) <> [] -> 0 <= ch < 990 ->
+  credited_consumer ch memo true true f = Some c ->
+  let d := cred_denom f ch l in
+  let m' := pm (pstep (mkP m f) (PReceive ch memo l amt true true)) in
+  get (c, d) (alloc m') = get (c, d) (alloc m) + dec_of_int amt /\
+  get (POOL, d) (bank m') = get (POOL, d) (bank m) + amt.
+Proof.
+  intros f m ch memo l amt c H1 H2 H3 H4 Hc d m'. unfold m', d. cbn [pstep pm pf].
+  rewrite <- (credit_denom_is_bank_denom f ch l H1 H2 H3 H4).
+  destruct (credit_sender ch memo (cred_denom f ch l) (cred_denom f ch l) amt true true f m) as (A & _ & _ & _ & _ & _ & B).
+  cbv zeta in A, B. rewrite A, B, Hc. unfold POOL. rewrite !Z.eqb_refl. cbn [andb]. split; reflexivity.
+Qed.
+
 (* ---- a concrete end-to-end history used by the non-vacuity examples of Props/C16.v *)
-Definition x_conf : conf := mkF [] [] [1] [] 1 2 [mkI 0 true true true true] [(0, 0)] 0.
-Definition x_chain : cstate := mkC [] 0 750000000000000000 2 [0; 2] [0; 1; 2] [] 0 0 true [(0, 1); (1, 2); (2, 0)] [] [].
+(* denom 1 = ibc/HASH(transfer/channel-10/ucons): the consumer's native denom (segment 12) as received on channel 0 *)
+Definition x_conf : conf := mkF [] [] [1] [] 1 2 [mkI 0 true true true true] [(0, 0)] 0 [([1; 1; 1010; 12], 1)].
+Definition x_chain : cstate := mkC [] 0 750000000000000000 2 [0; 2] [0; 1; 2] [] 0 0 true [(0, [12]); (1, [13]); (2, [1; 1001; 10])] [] [].
 Definition x_init : state := mkS (mkP empty_money x_conf) [x_chain].
 Definition x_env : benv := mkB 4 20000000000000000 [(0, 100000000000000000); (1, 100000000000000000); (2, 100000000000000000)] false [] [] [].
 Definition x_ops : list op :=
